@@ -31,6 +31,9 @@ type traffic struct {
 // failRequest asks the echo handler to return an error status.
 var failRequest = []byte("\xeefail-request")
 
+// streamRequest (prefix of an rpc payload) asks the rpc echo handler to stream two messages first.
+var streamRequest = []byte("\xeestream")
+
 // holdRequest (prefix of an rpc payload) asks the rpc echo handler to answer 15 ms late.
 var holdRequest = []byte("\xeehold")
 
@@ -65,6 +68,18 @@ func rpcEcho(ctx rpc.Context, ch rpc.ServerChannel) (ref.R[[]byte], status.Statu
 		case <-time.After(15 * time.Millisecond):
 		case <-ctx.Wait():
 			return nil, ctx.Status()
+		}
+	}
+
+	if bytes.HasPrefix(in.Bytes(1), streamRequest) {
+		// a server-streaming call: two messages, the end of the stream, then the result
+		for i := 0; i < 2; i++ {
+			if st := ch.Send(ctx, []byte{'s', byte(i), byte(in.Int64(2))}); !st.OK() {
+				return nil, st
+			}
+		}
+		if st := ch.SendEnd(ctx); !st.OK() {
+			return nil, st
 		}
 	}
 
@@ -269,6 +284,12 @@ func (t *traffic) rpcCaller(id int, payloads [][]byte, timeout time.Duration) (t
 				return fmt.Sprintf("freed-pending[%d]:%s", k, tok)
 			}
 		}
+		if k%3 == 2 {
+			// a streaming call read to its end: the (pooled) call state of the next call starts afresh
+			if tok := t.rpcStreamed(ctx, method, seq); tok != "ok" {
+				return fmt.Sprintf("streamed[%d]:%s", k, tok)
+			}
+		}
 		tok := func() string {
 			req := rpc.NewRequest()
 			defer req.Free()
@@ -348,6 +369,60 @@ func (t *traffic) rpcFreedPending(ctx async.Context, method string, seq int64) (
 	case <-time.After(10 * time.Second):
 		return "pending-response-never-returned"
 	}
+}
+
+// rpcStreamed makes a server-streaming call and reads the stream to its end, then the response.
+func (t *traffic) rpcStreamed(ctx async.Context, method string, seq int64) (tok string) {
+	req := rpc.NewRequest()
+	defer req.Free()
+	call := req.Add(method)
+	in := call.Input()
+	in.Field(1).Bytes(streamRequest)
+	in.Field(2).Int64(seq)
+	if err := in.End(); err != nil {
+		return "build"
+	}
+	if err := call.End(); err != nil {
+		return "build"
+	}
+	preq, st := req.Build()
+	if !st.OK() {
+		return "build"
+	}
+	ch, st := t.rcli.Channel(ctx, preq)
+	if !st.OK() {
+		return "channel:" + string(st.Code)
+	}
+	defer ch.Free()
+	n := 0
+	for {
+		msg, st := ch.Receive(ctx)
+		if st.Code == status.CodeEnd {
+			break
+		}
+		if !st.OK() {
+			return fmt.Sprintf("receive[%d]:%s", n, st.Code)
+		}
+		if len(msg) != 3 || msg[0] != 's' || int(msg[1]) != n || msg[2] != byte(seq) {
+			return fmt.Sprintf("stream-message-differs[%d]", n)
+		}
+		n++
+		if n > 2 {
+			return "stream-too-long"
+		}
+	}
+	if n != 2 {
+		return fmt.Sprintf("stream-ended-after-%d-of-2-messages", n)
+	}
+	res, st := ch.Response(ctx)
+	if !st.OK() {
+		return "response:" + string(st.Code)
+	}
+	m, err := spec.Value(res).MessageErr()
+	if err != nil || m.Int64(2) != seq {
+		return "response-differs"
+	}
+	return "ok"
 }
 
 // burst runs the plan: every mpx channel and every rpc caller in its own goroutine. It returns
